@@ -228,7 +228,7 @@ func c08oracle(d c08desc) (claimed string, why string, own bool) {
 func c08exec(c *h.Ctx, cs *h.Case) {
 	outcome := []string{}
 	for _, op := range cs.Ops {
-		if tk := strings.Fields(op); len(tk) > 2 && tk[0] == "c08" && (tk[1] == "honestcert" || tk[1] == "pair" || tk[1] == "retry" || tk[1] == "vrf" || tk[1] == "hv" || tk[1] == "phase") {
+		if tk := strings.Fields(op); len(tk) > 2 && tk[0] == "c08" && (tk[1] == "honestcert" || tk[1] == "pair" || tk[1] == "retry" || tk[1] == "vrf" || tk[1] == "hv" || tk[1] == "phase" || tk[1] == "pre") {
 			var obs, note string
 			switch tk[1] {
 			case "honestcert":
@@ -241,6 +241,8 @@ func c08exec(c *h.Ctx, cs *h.Case) {
 				obs, note = c08hv(tk[2:], cs)
 			case "phase":
 				obs, note = c08phase(tk[2:], cs)
+			case "pre":
+				obs, note = c08pre(tk[2:], cs)
 			default:
 				obs, note = c08pair(tk[2:], cs)
 			}
@@ -749,6 +751,15 @@ func c08gen(c *h.Ctx, yield func(*h.Case)) {
 			vemit("vrf-combo", d)
 		}
 	}
+	// what NewTLSConn wants before it sends anything (round 5)
+	for _, suite := range suitesL {
+		for _, addr := range []string{"tls", "tcp", "local"} {
+			for _, priv := range []string{"yes", "no"} {
+				c.Count("class=pre")
+				yield(&h.Case{Class: "pre:" + addr + ":" + priv, Ops: []string{fmt.Sprintf("c08 pre suite=%s addr=%s priv=%s", suite, addr, priv)}})
+			}
+		}
+	}
 	// the message phase (round 5): after an honest set-up, sequences of messages, ServerIdentity messages
 	// naming other keys (with the id field of the proven key or of another one) and refused frames
 	{
@@ -895,7 +906,7 @@ func c08gen(c *h.Ctx, yield func(*h.Case)) {
 		strings.Replace(honest("accept", "ed", "12", "v").line(), "sig=v/cur/new:v", "sig=v/now/new:v", 1),
 		strings.Replace(honest("dial", "ed", "12", "v").line(), "them=v", "them=-", 1),
 		honest("dial", "ed", "12", "v").line() + " extra=1",
-		"c08 phase role=accept suite=ed tlsv=13 seq=", "c08 phase role=accept suite=ed tlsv=13 seq=m;i:v", "c08 phase role=both suite=ed tlsv=13 seq=m",
+		"c08 pre suite=ed addr=udp priv=yes", "c08 pre suite=ed addr=tls", "c08 phase role=accept suite=ed tlsv=13 seq=", "c08 phase role=accept suite=ed tlsv=13 seq=m;i:v", "c08 phase role=both suite=ed tlsv=13 seq=m",
 		"c08 vrf role=dial", "c08 hv role=dial suite=ed them=- nonce=cur", "c08 hv role=accept suite=ed them=v nonce=cur",
 		strings.Replace(c08vrfLine(honest("dial", "ed", "13", "v")), "suite=ed", "suite=p384", 1),
 		strings.Replace(c08vrfLine(honest("accept", "g1", "13", "v")), "them=-", "them=v", 1),
